@@ -79,7 +79,52 @@ pytrans_graph.py).  Everything here is only active for specs that ask for it (`m
                `fuel' + 1` arm of `match fuel`, a recursive call passes `fuel'`, and at fuel 0 it ends with `throw .recursion`
                (RecursionError).  As for `while`: `.error .recursion` at every fuel means the Python call never returns normally.
   exceptions   the state a RAISING call leaves behind (objects mutated before the raise) is not part of the translation's result;
-               bridging theorems relate the exception to the model's error outcome and the state only for normal returns.
+               bridging theorems relate the exception to the model's error outcome and the state only for normal returns
+               (unless the spec asks for `exc_state`, below).
+
+Extension for `Options` / `OptionsValidator` / `Features.merge_options` (run-time meaning in `Model/PyRtVal.lean`; spec
+extractors/pytrans_options.py).  Opt-in per spec (`exc_state`, `local_decl`, `fstring_eval`, `rt_names`, `obj_field_names`):
+  exc_state    **the state AT THE RAISE is part of the result**: a function with mutable state (self, mutated parameters, written
+               world variables) has the type `Except (PyExc × State) …`; every `throw e` is `throw (e, <state>)`, a run-time
+               primitive (`Except PyExc α`) is lifted with `withSt <state>`, and a call of a translated function that has state is a
+               `match`: in the `.error (exc, state')` arm what the callee mutated is re-bound and the exception goes on with the
+               CALLER's state.  A function without mutable state stays `Except PyExc` (`dropSt` / `withSt` at the boundary).
+  types        "pyset" (a Python set of arbitrary hashable values: `List PyVal`; `add` / `update` raise TypeError for an unhashable
+               element / a value that cannot be iterated), "strset" (a set / frozenset of `str`), on top of "dict" (`PyDict`),
+               "pyval", "str", "items", "strlist"; object types with other Lean field names (`obj_field_names`).
+  expressions  `x or {}` / `x or frozenset()` on an Optional container; `set(d.keys())`; `a & b`, `a - b` on sets of str; `{a, b}` of
+               str; `==` / `!=` on option values (`PyVal.pyEq`) and on dicts; `k in <set>` / `v in <dict>`; truthiness of an option
+               value; dict comprehension over `.items()` with conditions (as the loop it abbreviates); **short circuit**: a later
+               operand of `and` / `or` that may raise (`d[k]`) is only evaluated when the earlier one does not decide.
+  statements   `d.update(e)` on a str-keyed dict, `s.add(x)` / `s.update(v)` on a "pyset" (on a PARAMETER only after it was
+               re-assigned a fresh literal in the same block - otherwise the caller's object would change), `del d[k]`, `for x in
+               <option value>` (`PyVal.iter`), iteration / `in` on an Optional set (None: TypeError); an interpolated item read in the
+               f-string of a `raise` is evaluated before the throw (`fstring_eval`); `local_decl`: `FnSpec.local_types` declares the type
+               of a local, values are coerced at assignments (`None` -> `none`, `T` -> `some`, a set of str -> a set of values).
+
+Extension for the link-ordering code and pieces of `execution_plan.py` (run-time meaning in `Model/PyRtRef.lean`, `PyRtPlan.lean`; specs
+extractors/pytrans_links.py, pytrans_plan.py).  Opt-in (`set_refs` / `ext`, `eq_types`, `iter_map`, `list_coerce`, `FnSpec.nested_in` / `closure`):
+  set objects  **`set_refs`: Python `set` objects that may be SHARED between containers are references** (type "sref", a `Nat` handle)
+               into the heap of set objects `sheap` (a world variable: a parameter of every function that touches a set object,
+               returned when written; decided by a first translation pass).  `{x}` / `set()` / the default of a `defaultdict(set)`
+               allocate, `r.add(x)`, `r.remove(x)` (KeyError), `x in r`, `len(r)`, `for x in r` (the body must not change set objects)
+               go through the heap - so `d1[k] = v` with `v` taken from `d2.items()` makes both dicts hold THE SAME object and a later
+               mutation through one is seen through the other.  `deepcopy(d)` of a dict of set objects is a snapshot of values.
+  dicts        "kdict[K,V]" / "kddict[K,V]": insertion-ordered dicts (`dict`, `OrderedDict`; `defaultdict` - a READ of a missing key
+               inserts it) with keys of any type with decidable equality (`KDict`): `d[k]`, `d[k] = v`, `del d[k]`, `k in d`, `len(d)`,
+               `.items()` ("kitems"), `.keys()`, `OrderedDict()`, `OrderedDict(items)`, `list(items)`, `items.insert(pos, pair)`,
+               `.move_to_end(k)`, `d[k].add(x)` / `d[k].update(s)` on defaultdicts of value sets.
+  sets/lists   "eset[T]" (a set of records as a VALUE; iterating it needs `iter_map`: the order is an explicit input, except inside a
+               set comprehension whose result is a set again), "list[T]" with `append`, heterogeneous lists through `list_coerce`.
+  statements   `for` with any nesting of tuple targets, over `enumerate(…)`, `range(a)`, `range(a, b)`, dict items / keys, set
+               objects; an inner loop that re-binds the loop variable of an enclosing loop is accepted when the enclosing body does not
+               read it afterwards; `_ = e`; a chained comparison `a == b == c` with a name in the middle; `max(list)`; `len`;
+               naturals: `+`, truthiness; `if x is None: A else: B` narrows `x` in B to a MUTABLE local (an assignment also
+               updates the Optional variable); `x[i]` on an Optional tuple (None: TypeError); locals first assigned in every branch of
+               an `if` are declared before it (`local_types`; checked: no path reads them before the assignment).
+  nested def   a `def` nested in a method (`FnSpec.nested_in`) is translated as a function of its own, listed before the enclosing
+               one; its free variables that are locals of the enclosing function (`closure`) are parameters, the call site passes
+               the current values (Python closures read the variable at call time).  Only called, never stored / returned.
 """
 from __future__ import annotations
 
@@ -130,12 +175,19 @@ class _LeanTy(dict):  # type: ignore[type-arg]
             return "NDict Nat" if args[1] == "nat" else "NDict (List Nat)"  # a defaultdict: reads insert (DDict / IDict)
         if head == "dict" and len(args) == 2 and split_ty(args[0])[0] == "tuple":
             return f"ADict {par(args[0])} {par(args[1])}"
-        if head in ("yield", "list") and len(args) == 1:
+        if head in ("yield", "list", "eset") and len(args) == 1:
             return f"List {par(args[0])}"
+        if head in ("kdict", "kddict", "kitems") and len(args) == 2:
+            return f"KDict {par(args[0])} {par(args[1])}"
         raise Unsupported(f"type {ty}")
 
 
 NAT_LIKE = ("nat", "uuid", "sid", "objid")
+
+
+def NAT_TYPES(ft: "FnTranslator") -> List[str]:
+    """spec types of the module that are `Nat` ids"""
+    return [t for t, lt in ft.ms.types.items() if lt == "Nat"] + list(NAT_LIKE)
 
 
 def tuple_proj(n: int, i: int) -> str:
@@ -143,7 +195,7 @@ def tuple_proj(n: int, i: int) -> str:
     return ".2" * i + ".1" if i < n - 1 else ".2" * (n - 1)
 
 
-LEAN_TY = _LeanTy({"queue": "Nat", "qlist": "List Nat", "qmsg": "QMsg", "qheap": "QHeap", "sched": "List (List QMsg)", "pdata": "PData", "float": "Unit", "uuid": "Nat", "sid": "Nat", "objid": "Nat", "any": "Option Nat", "obj": "Unit", "dict": "PyDict", "pyval": "PyVal", "items": "PyDict", "strlist": "List String", "set": "PSet", "bool": "Bool", "nat": "Nat", "step": "PStep", "unit": "Unit", "boolorset": "BoolOrSet", "str": "String", "natlist": "List Nat"})
+LEAN_TY = _LeanTy({"sref": "Nat", "sheap": "SHeap", "queue": "Nat", "qlist": "List Nat", "qmsg": "QMsg", "qheap": "QHeap", "sched": "List (List QMsg)", "pdata": "PData", "float": "Unit", "uuid": "Nat", "sid": "Nat", "objid": "Nat", "any": "Option Nat", "obj": "Unit", "dict": "PyDict", "pyval": "PyVal", "items": "PyDict", "strlist": "List String", "set": "PSet", "bool": "Bool", "nat": "Nat", "step": "PStep", "unit": "Unit", "boolorset": "BoolOrSet", "str": "String", "natlist": "List Nat", "pyset": "List PyVal", "strset": "List String"})
 SET_MUTATORS = {"update", "add", "difference_update", "discard", "remove", "clear"}
 LEAN_KEYWORDS = {"from", "to", "end", "at", "in", "do", "then", "else", "if", "let", "have", "show", "fun", "open", "local", "instance", "class", "structure", "def", "theorem", "where", "with", "match", "return", "for", "mut", "unless", "break", "continue", "try", "catch", "finally", "import", "namespace", "section", "variable", "universe", "export", "prefix", "infix", "notation", "macro", "syntax", "deriving", "extends", "abbrev", "example", "axiom", "private", "protected", "partial", "unsafe", "mutual", "inductive", "Type", "Prop", "Sort", "by", "using", "calc", "nomatch", "nofun", "forall", "exists"}
 
@@ -209,6 +261,8 @@ class FnSpec:
     defaults: Dict[str, Tuple[str, str]] = field(default_factory=dict)  # parameter -> (source text of its Python default, Lean text used when a caller omits it)
     local_types: Dict[str, str] = field(default_factory=dict)  # locals created by `defaultdict(...)`: name -> type (the key type is not in the source)
     recursive: bool = False  # the function calls itself: it takes `fuel` = remaining Python frames (see the docstring)
+    nested_in: Optional[str] = None  # a `def` nested in this method: translated as a function of its own (listed BEFORE the enclosing one)
+    closure: Dict[str, str] = field(default_factory=dict)  # free variables of a nested `def` that are locals of the enclosing function: name -> type (extra parameters; the call site passes the current value)
 
 
 @dataclass
@@ -237,6 +291,16 @@ class ModuleSpec:
     field_names: Dict[str, str] = field(default_factory=dict)  # python path of a self field "executor.cfw_collection" -> Lean path "cfw_collection"
     narrow: bool = False  # flow narrowing of Optional locals (`if x is None: raise/return`, `if x is not None:`, `if x:`), see the docstring
     exc_types: Dict[str, str] = field(default_factory=dict)  # "queue.Empty" -> the `none_is` tag of the Method whose failure it is
+    exc_state: bool = False  # a function with mutable state returns `Except (PyExc × State) …`: the state AT THE RAISE is part of the result (see the docstring)
+    rt_names: Dict[str, str] = field(default_factory=dict)  # run-time primitive -> the name to emit instead ("PyDict.getItem" -> "PyDict.getItemE")
+    obj_field_names: Dict[str, Dict[str, str]] = field(default_factory=dict)  # object type -> python attribute -> Lean field name (when they differ)
+    fstring_eval: bool = False  # an item read `d[k]` interpolated into the f-string of a `raise` is evaluated (bound) before the throw: it may raise itself
+    ext: bool = False  # the newer statement / expression forms (general `for` targets, `enumerate`, `range`, dicts with arbitrary keys, sets of records, …) without the heap of set objects
+    set_refs: bool = False  # Python `set` objects that may be SHARED between containers are references ("sref") into the world variable `sheap` (see the docstring)
+    eq_types: List[str] = field(default_factory=list)  # further spec types whose Python `==` is structural equality of the Lean values (ids, records of ids)
+    list_coerce: Dict[Tuple[str, str], str] = field(default_factory=dict)  # ("qitems", element type) -> Lean text with `{}`: how a value of that type becomes an element of the heterogeneous list
+    iter_map: Dict[str, Tuple[str, str]] = field(default_factory=dict)  # "for x in s" (loop header) -> (Lean list, element type): the iteration order of a set of non-ids is an explicit input
+    local_decl: bool = False  # `FnSpec.local_types` also declares the type of ordinary locals (the value of the first assignment is coerced to it)
 
 
 def paren(t: str) -> str:
@@ -276,6 +340,7 @@ class FnTranslator:
         self.fdef = fdef
         self.env: Dict[str, str] = dict(spec.params)
         self.env.update(spec.live_in)
+        self.env.update(spec.closure)
         self.mutated: List[str] = []  # parameters (or live-in names) mutated -> returned
         self.self_mut = False
         self.effects = False
@@ -292,6 +357,13 @@ class FnTranslator:
         self.alias: Dict[str, Tuple[ast.expr, ast.expr]] = {}  # local `x = d[k]` holding a heap object: (d, k); a mutation of x is written back
         self.touches: set = set()  # defaultdict fields of self that a read may grow (here or in a callee)
         self.writes: set = set()  # fields of self written otherwise (item assignment, del, append / add on an item, attribute assignment)
+        self.force_heap: Optional[Tuple[bool, bool]] = None  # (read, written): the world variable `sheap` is a parameter / is returned (decided by a first pass)
+        self.heap_read = False
+        self.heap_written = False
+        self.loop_stack: List[Tuple[ast.For, set]] = []  # enclosing `for` statements with the names they bind
+        self.obj_loop_vars: set = set()  # loop variables that hold an object of the list being iterated (mutable; written back into the list)
+        self.narrow_mut: set = set()  # flow-narrowed Optional locals whose narrowed value is a MUTABLE local (assignments are written back to the Optional variable)
+        self.fresh_objs: set = set()  # locals / parameters that were assigned a fresh container literal in the current block (mutating them cannot be seen by the caller)
         self.is_gen = False  # the function is a generator: `yield e` appends to `yielded`, which is what is returned
         for t, lt in self.ms.types.items():
             LEAN_TY[t] = lt
@@ -341,6 +413,13 @@ class FnTranslator:
             return [self.sfield_set(d, value)]  # type: ignore[arg-type]
         if d in self.ms.attr_vars:
             return [f"{lname(self.ms.attr_vars[d][0])} := {value}"]
+        if isinstance(tgt, ast.Attribute) and isinstance(tgt.value, ast.Name) and tgt.value.id in self.obj_loop_vars:
+            o = tgt.value.id
+            oty = self.env[o]
+            if tgt.attr not in self.ms.obj_fields.get(oty, {}):
+                raise Unsupported(f"attribute {d} of a {oty}")
+            fld = lname(self.ms.obj_field_names.get(oty, {}).get(tgt.attr, tgt.attr))
+            return [f"{lname(o)} := {{ {lname(o)} with {fld} := {value} }}"]
         raise Unsupported(f"the callee mutates {ast.unparse(tgt)}, which is neither a local nor a field of self")
 
     # ---------------------------------------------------------------- analysis
@@ -348,6 +427,8 @@ class FnTranslator:
         self.attr_params: List[str] = []
         if self.spec.recursive:
             self.needs_fuel = True
+        if self.force_heap is not None and (self.force_heap[0] or self.force_heap[1]):
+            self.use_world("sheap", "sheap", self.force_heap[1])
         # locals that alias a heap object stored in a dict (`x = d[k]`): a mutation of x mutates d
         aliases: Dict[str, ast.expr] = {}
         for node in ast.walk(ast.Module(body=stmts, type_ignores=[])):
@@ -356,9 +437,17 @@ class FnTranslator:
         for node in ast.walk(ast.Module(body=stmts, type_ignores=[])):
             if isinstance(node, (ast.Yield, ast.YieldFrom)):
                 self.is_gen = True
+            if isinstance(node, ast.Subscript) and isinstance(node.ctx, ast.Load) and self.extm:
+                dv = dotted(node.value)
+                if dv in self.ms.attr_vars and split_ty(self.ms.attr_vars[dv][1])[0] in ("ddict", "kddict"):
+                    vn = self.ms.attr_vars[dv][0]
+                    if vn not in self.attr_written:
+                        self.attr_written.append(vn)  # a defaultdict read may insert the key
+                if isinstance(node.value, ast.Name) and dv in self.spec.params and split_ty(self.spec.params[dv])[0] in ("ddict", "kddict") and dv not in self.mutated:
+                    self.mutated.append(dv)  # the caller's defaultdict may grow by the read
             if isinstance(node, ast.Subscript) and isinstance(node.ctx, ast.Load):
                 sf0 = self.sfield(dotted(node.value))
-                if sf0 is not None and split_ty(sf0[1])[0] == "ddict":
+                if sf0 is not None and (split_ty(sf0[1])[0] == "ddict" or (self.extm and split_ty(sf0[1])[0] == "kddict")):
                     self.self_mut = True  # a defaultdict read may insert the key
                     self.touches.add(dotted(node.value))
             if isinstance(node, ast.Call) and isinstance(node.func, ast.Attribute) and node.func.attr in ("append", "add") and isinstance(node.func.value, ast.Subscript):
@@ -411,6 +500,8 @@ class FnTranslator:
                 tgt = dotted(tg0) if isinstance(tg0, ast.Attribute) else None
                 if tgt and tgt.startswith("self.") and tgt[5:] in self.ms.self_fields and tgt not in self.ms.attr_vars and tgt not in self.ms.attr_assign_events:
                     self.self_mut = True
+            if isinstance(node, ast.For) and self.extm and isinstance(node.iter, ast.Name) and isinstance(node.target, ast.Name) and self.obj_loop_mutates(node):
+                self.note_mutation(node.iter, aliases)  # the objects in the caller's list change
             if isinstance(node, ast.While):
                 self.needs_fuel = True
             if isinstance(node, ast.Assign) and len(node.targets) == 1 and dotted(node.targets[0]) in self.ms.attr_assign_events:
@@ -463,6 +554,9 @@ class FnTranslator:
                     self.effects = self.effects or callee.effects
                     self.needs_fuel = self.needs_fuel or callee.needs_fuel
                     self.oracles.update(callee.oracles)
+                    if "sheap" in callee.attr_params:
+                        self.heap_read = True
+                        self.heap_written = self.heap_written or "sheap" in callee.attr_written
                     for av in callee.attr_params:
                         if av not in self.env:
                             self.env[av] = callee.env[av]
@@ -477,6 +571,19 @@ class FnTranslator:
         # keep parameter order
         order = list(self.spec.params) + list(self.spec.live_in)
         self.mutated.sort(key=lambda n: order.index(n))
+
+    def obj_loop_mutates(self, loop: ast.For) -> bool:
+        """the body of `for x in <list>` mutates the object `x` (a method call on / an assignment to an attribute of `x`)"""
+        assert isinstance(loop.target, ast.Name)
+        v = loop.target.id
+        for node in ast.walk(ast.Module(body=loop.body, type_ignores=[])):
+            if isinstance(node, ast.Call) and isinstance(node.func, ast.Attribute) and node.func.attr in SET_MUTATORS | {"append"} and isinstance(node.func.value, ast.Attribute) and isinstance(node.func.value.value, ast.Name) and node.func.value.value.id == v:
+                return True
+            if isinstance(node, (ast.Assign, ast.AugAssign)):
+                for tg in (node.targets if isinstance(node, ast.Assign) else [node.target]):
+                    if isinstance(tg, ast.Attribute) and isinstance(tg.value, ast.Name) and tg.value.id == v:
+                        return True
+        return False
 
     def use_world(self, vn: str, vt: str, written: bool) -> None:
         """a world variable (flight store, queue heap, arrival schedule): a parameter, returned when written"""
@@ -512,6 +619,8 @@ class FnTranslator:
             return self.mod.translated[d[5:]]
         if self.ms.cls is None and d in self.mod.translated:
             return self.mod.translated[d]
+        if d in self.mod.translated and self.mod.translated[d].spec.nested_in == self.spec.py_name:
+            return self.mod.translated[d]  # a `def` nested in this function
         if self.spec.recursive and d in (f"self.{self.spec.py_name}", self.spec.py_name):
             return None  # the function itself: handled by the recursion rule
         return None
@@ -560,7 +669,15 @@ class FnTranslator:
             return f"(strTruthy {txt})"  # the empty string (id 0) is the only falsy str
         if ty in ("queue", "float") or self.is_objty(ty):
             return "true"  # an object without __bool__/__len__ is truthy
-        if ty in ("natlist", "qlist"):
+        if ty in ("natlist", "qlist", "strset", "pyset", "strlist", "dict", "items") or split_ty(ty)[0] == "list":
+            return f"!({txt}).isEmpty"
+        if ty == "pyval":
+            return f"(PyVal.truthy {txt})"
+        if ty == "nat" and self.extm:
+            return f"({txt} != 0)"
+        if ty == "sref":
+            return f"(SHeap.len {self.heap()} {txt} != 0)"
+        if split_ty(ty)[0] in ("kdict", "kddict", "kitems", "eset"):
             return f"!({txt}).isEmpty"
         head, args = split_ty(ty)
         if head == "dict" and args:
@@ -583,6 +700,10 @@ class FnTranslator:
             return f"(some {txt})"
         if ty == "emptydict" and wh == "dict":
             return "[]"
+        if ty == "strset" and want == "pyset":
+            return f"(List.map PyVal.str {txt})"  # a set of str used where a set of arbitrary hashable values is expected
+        if ty == "strset" and want == "opt[pyset]":
+            return f"(some (List.map PyVal.str {txt}))"
         if ty == "emptydict" and wh == "opt" and split_ty(wa[0])[0] == "dict":
             return "(some [])"
         if ty in ("nat", "uuid") and want in ("nat", "uuid"):
@@ -599,14 +720,14 @@ class FnTranslator:
         """an argument of a call: `coerce`, plus the dynamic checks a callee would run into"""
         c = self.coerce(txt, ty, want)
         if c is None and ty == "qmsg" and want == "set":
-            return f"(← QMsg.asSet {txt})"  # a queue message used as a set (after `isinstance(m, set)`)
+            return self.M(f"QMsg.asSet {txt}")  # a queue message used as a set (after `isinstance(m, set)`)
         return c
 
     def deref_receiver(self, recv: str, rty: str) -> Tuple[str, str]:
         """receiver of a method call that has type `opt[T]`: `None.<attr>` raises AttributeError (`Opt.deref`)"""
         head, args = split_ty(rty)
         if head == "opt":
-            return f"(← Opt.deref {recv})", args[0]
+            return self.M(f"Opt.deref {recv}"), args[0]
         return recv, rty
 
     def expr(self, e: ast.expr, pre: List[str]) -> Tuple[str, str]:
@@ -621,7 +742,9 @@ class FnTranslator:
                 if isinstance(part, ast.FormattedValue):
                     if isinstance(part.value, ast.Name) and part.value.id in self.env:
                         continue
-                    self.expr(part.value, pre)
+                    ft, _ = self.expr(part.value, pre)
+                    if self.ms.fstring_eval and "←" in ft:
+                        pre.append(f"let _ := {ft}")  # the interpolated read is made (it may raise), its text is not kept
             return '"' + self.fstring_text(e) + '"', "str"
         if isinstance(e, ast.Constant):
             if e.value is True:
@@ -648,6 +771,26 @@ class FnTranslator:
             return self.list_comp(e, pre)
         if isinstance(e, ast.Dict) and not e.keys:
             return "[]", "emptydict"
+        if isinstance(e, ast.Set) and e.elts:
+            parts = [self.expr(x, pre) for x in e.elts]
+            if all(ty == "str" for _, ty in parts):
+                lit = "[" + ", ".join(t for t, _ in parts) + "]"
+                return (lit if len(parts) == 1 else f"(List.eraseDups {lit})"), "strset"
+            if len(parts) == 1 and parts[0][1] in NAT_LIKE and self.ms.set_refs:
+                return self.new_set(f"[{parts[0][0]}]", pre), "sref"
+            if all(ty in NAT_LIKE for _, ty in parts) and self.ms.ext:
+                return "(PSet.ofList [" + ", ".join(t for t, _ in parts) + "])", "set"  # a new set (a value): the elements in first-occurrence order
+            raise Unsupported(f"set display {ast.unparse(e)}")
+        if isinstance(e, ast.DictComp):
+            return self.dict_comp(e, pre)
+        if isinstance(e, ast.BinOp) and isinstance(e.op, (ast.BitAnd, ast.Sub)):
+            l, lt = self.expr(e.left, pre)
+            r, rt = self.expr(e.right, pre)
+            if lt == rt == "strset":
+                return f"({'StrSet.inter' if isinstance(e.op, ast.BitAnd) else 'StrSet.diff'} {l} {r})", "strset"
+            if lt == rt == "nat" and isinstance(e.op, ast.Sub):
+                raise Unsupported("subtraction of naturals (could be negative)")
+            raise Unsupported(f"{type(e.op).__name__} between {lt} and {rt}")
         if isinstance(e, ast.Attribute) and dotted(e) in self.ms.attr_vars:
             vn, vt = self.ms.attr_vars[dotted(e)]
             return lname(vn), vt
@@ -661,7 +804,7 @@ class FnTranslator:
             if self.ms.obj_fields:
                 v, vty = self.expr(e.value, pre)
                 if e.attr in self.ms.obj_fields.get(vty, {}):
-                    return f"{v}.{lname(e.attr)}", self.ms.obj_fields[vty][e.attr]
+                    return f"{paren(v)}.{lname(self.ms.obj_field_names.get(vty, {}).get(e.attr, e.attr))}", self.ms.obj_fields[vty][e.attr]
             raise Unsupported(f"attribute {d}")
         if isinstance(e, ast.UnaryOp) and isinstance(e.op, ast.Not):
             t, ty = self.expr(e.operand, pre)
@@ -671,14 +814,34 @@ class FnTranslator:
             if ty0 == "obj":
                 return t0, "obj"  # `obj or None`
             raise Unsupported(f"`{ty0} or None`")
+        if isinstance(e, ast.BoolOp) and isinstance(e.op, ast.Or) and len(e.values) == 2 and self.empty_literal(e.values[1]):
+            # `x or {}` / `x or frozenset()` for an Optional container: None and the empty container both give the empty container
+            t0, ty0 = self.expr(e.values[0], pre)
+            h0, a0 = split_ty(ty0)
+            if h0 == "opt" and a0[0] in ("dict", "strset", "pyset") and a0[0] in self.empty_literal(e.values[1]):
+                return f"(Option.getD {t0} [])", a0[0]
+            raise Unsupported(f"`{ty0} or {ast.unparse(e.values[1])}`")
         if isinstance(e, ast.BoolOp):
             first = self.expr(e.values[0], pre)
             n0 = len(pre)
-            parts = [first] + [self.expr(v, pre) for v in e.values[1:]]
-            if len(pre) != n0 or any("←" in t for t, _ in parts[1:]):
-                raise Unsupported("call with effects / subscript that may raise in a later operand of and/or (evaluation would not be short-circuited)")
+            later_pre: List[str] = []
+            parts = [first] + [self.expr(v, later_pre) for v in e.values[1:]]
+            if later_pre or any("←" in t for t, _ in parts[1:]):
+                # a later operand may raise / has effects: it is only evaluated when the earlier ones do not decide (short circuit)
+                if len(e.values) != 2:
+                    raise Unsupported("and/or with more than two operands, one of which may raise")
+                acc = self.fresh("and" if isinstance(e.op, ast.And) else "or")
+                pre.append(f"let mut {acc} : Bool := {self.truthy(*first)}")
+                inner = list(later_pre) + [f"{acc} := {self.truthy(*parts[1])}"]
+                pre.append(f"if {acc if isinstance(e.op, ast.And) else '!' + acc} then\n" + "\n".join("  " + x for ln_ in inner for x in ln_.split("\n")))
+                return acc, "bool"
             op = " && " if isinstance(e.op, ast.And) else " || "
             return "(" + op.join(self.truthy(t, ty) for t, ty in parts) + ")", "bool"
+        if isinstance(e, ast.Compare) and len(e.ops) == 2 and self.extm and all(isinstance(o, ast.Eq) for o in e.ops) and isinstance(e.comparators[0], ast.Name):
+            # `a == b == c` is `a == b and b == c` (b is a name: evaluating it twice is the same)
+            l1, _ = self.expr(ast.Compare(left=e.left, ops=[e.ops[0]], comparators=[e.comparators[0]]), pre)
+            l2, _ = self.expr(ast.Compare(left=e.comparators[0], ops=[e.ops[1]], comparators=[e.comparators[1]]), pre)
+            return f"({l1} && {l2})", "bool"
         if isinstance(e, ast.Compare):
             if len(e.ops) != 1:
                 raise Unsupported("chained comparison")
@@ -706,8 +869,24 @@ class FnTranslator:
                     t = f"PyDict.has {r} {l}"
                 elif split_ty(rt)[0] == "dict" and (split_ty(rt)[1][:1] == [lt] or (lt in ("nat", "uuid") and split_ty(rt)[1][:1] in (["nat"], ["uuid"]))):
                     t = f"NDict.has {r} {l}"
-                elif rt == "set" or (rt == "natlist" and lt in NAT_LIKE):
+                elif (rt == "set" and (lt in NAT_LIKE or lt in self.ms.eq_types or not self.extm)) or (rt == "natlist" and lt in NAT_LIKE):
                     t = f"PSet.has {r} {l}"
+                elif lt == "str" and rt in ("strset", "strlist"):
+                    t = f"List.contains {r} {l}"
+                elif lt == "str" and rt == "pyset":
+                    t = f"PySet.hasStr {r} {l}"
+                elif lt == "str" and rt == "opt[pyset]":
+                    t = f"PySet.hasStr {self.M(f'Opt.derefIn {r}')} {l}"  # `x in None` is a TypeError
+                elif lt == "pyval" and rt == "dict":
+                    t = f"PyDict.hasVal {r} {l}"
+                elif self.key_dict(rt) is not None and self.elem_eq(lt, self.key_dict(rt)[0]):
+                    t = f"KDict.has {r} {l}"
+                elif split_ty(rt)[0] == "ddict" and self.extm and self.elem_eq(lt, split_ty(rt)[1][0]):
+                    t = f"NDict.has {r} {l}"
+                elif rt == "sref" and lt in NAT_LIKE:
+                    t = f"SHeap.has {self.heap()} {r} {l}"
+                elif split_ty(rt)[0] in ("eset", "list") and split_ty(rt)[1] == [lt] and self.eq_type(lt, lt):
+                    t = f"decide ({l} ∈ {r})"
                 else:
                     raise Unsupported(f"`in` on {rt}")
                 return (f"!({t})" if isinstance(op, ast.NotIn) else f"({t})"), "bool"
@@ -715,6 +894,12 @@ class FnTranslator:
                 if lt == "set" and rt == "set":
                     t = f"PSet.eq {l} {r}"
                 elif (lt == rt and lt in ("nat", "bool", "str", "uuid", "sid")) or ({lt, rt} == {"nat", "uuid"}):
+                    t = f"{l} == {r}"
+                elif lt == rt == "pyval":
+                    t = f"PyVal.pyEq {l} {r}"
+                elif lt == rt == "dict":
+                    t = f"PyVal.pyEq (.dict {l}) (.dict {r})"
+                elif self.eq_type(lt, rt):
                     t = f"{l} == {r}"
                 else:
                     raise Unsupported(f"== between {lt} and {rt}")
@@ -728,7 +913,26 @@ class FnTranslator:
             dh, da = split_ty(dty)
             if dh == "tuple" and isinstance(e.slice, ast.Constant) and isinstance(e.slice.value, int) and not isinstance(e.slice.value, bool) and 0 <= e.slice.value < len(da):
                 return f"{d}{tuple_proj(len(da), e.slice.value)}", da[e.slice.value]
+            if dh == "opt" and split_ty(da[0])[0] == "tuple" and isinstance(e.slice, ast.Constant) and isinstance(e.slice.value, int) and self.extm:
+                ia = split_ty(da[0])[1]
+                if 0 <= e.slice.value < len(ia):
+                    return f"{self.M(f'Opt.derefSub {d}')}{tuple_proj(len(ia), e.slice.value)}", ia[e.slice.value]  # `None[i]` is a TypeError
             k, kty = self.expr(e.slice, pre)
+            if dh == "kdict" and self.elem_eq(kty, da[0]):
+                return self.M(f"KDict.getItem {d} {k}"), da[1]
+            if dh == "kddict" and self.elem_eq(kty, da[0]) and da[1] == "sref":
+                # the READ of a `defaultdict(set)`: a missing key is inserted with a new empty set object
+                v, rest, hp = self.fresh("ref"), self.fresh("d"), self.fresh("sheap")
+                pre.append(f"let ({v}, {rest}, {hp}) := KDict.read {d} {k} {self.heap(True)}")
+                pre.extend(self.assign_to(e.value, rest))
+                pre.append(f"sheap := {hp}")
+                return v, "sref"
+            if dh == "kddict" and self.elem_eq(kty, da[0]) and (da[1] == "set" or split_ty(da[1])[0] == "eset"):
+                # the READ of a `defaultdict(set)` whose sets are values: a missing key is inserted with the empty set
+                v, rest = self.fresh("v"), self.fresh("d")
+                pre.append(f"let ({v}, {rest}) := KDict.readD {d} {k} []")
+                pre.extend(self.assign_to(e.value, rest))
+                return v, da[1]
             if dh == "ddict" and (kty == da[0] or {kty, da[0]} == {"nat", "uuid"}):
                 # a defaultdict READ: the value, and the key is inserted (with the default) when it is missing
                 v, rest = self.fresh("v"), self.fresh("d")
@@ -736,19 +940,59 @@ class FnTranslator:
                 pre.extend(self.assign_to(e.value, rest))
                 return v, da[1]
             if dty == "dict" and kty == "str":
-                return f"(← PyDict.getItem {d} {k})", "pyval"
+                return self.M(f"{self.rt('PyDict.getItem')} {d} {k}"), "pyval"
             if dh == "dict" and da and (kty == da[0] or {kty, da[0]} == {"nat", "uuid"}):
-                return f"(← NDict.getItem {d} {k})", da[1]
+                return self.M(f"NDict.getItem {d} {k}"), da[1]
             raise Unsupported(f"subscript of {dty} by {kty}")
         if isinstance(e, ast.BinOp) and isinstance(e.op, ast.Add):
             l, lt = self.expr(e.left, pre)
             r, rt = self.expr(e.right, pre)
             if lt == rt and lt in ("items", "strlist", "natlist"):
                 return f"({l} ++ {r})", lt
+            if lt == rt == "nat":
+                return f"({l} + {r})", "nat"
             raise Unsupported(f"+ between {lt} and {rt}")
         if isinstance(e, ast.Call):
             return self.call(e, pre)
         raise Unsupported(f"expression {type(e).__name__}: {ast.unparse(e)}")
+
+    def has_refs(self, ty: str) -> bool:
+        return "sref" in ty
+
+    def key_dict(self, ty: str) -> Optional[Tuple[str, str]]:
+        """`kdict[K,V]` / `kddict[K,V]`: an insertion-ordered dict with keys of any type with decidable equality -> (K, V)"""
+        h, a = split_ty(ty)
+        return (a[0], a[1]) if h in ("kdict", "kddict") and len(a) == 2 else None
+
+    def eq_type(self, lt: str, rt: str) -> bool:
+        """Python `==` between these two types is structural equality of the Lean values"""
+        if lt != rt:
+            return {lt, rt} <= {"nat", "uuid"}
+        h, a = split_ty(lt)
+        if h == "tuple":
+            return all(self.eq_type(x, x) for x in a)
+        return lt in NAT_LIKE or lt in self.ms.eq_types
+
+    def empty_literal(self, e: ast.expr) -> Tuple[str, ...]:
+        """`{}` / `frozenset()` / `set()`: the container types the literal can stand for (empty tuple: not such a literal)"""
+        if isinstance(e, ast.Dict) and not e.keys:
+            return ("dict",)
+        if isinstance(e, ast.Call) and dotted(e.func) in ("frozenset", "set") and not e.args and not e.keywords:
+            return ("strset", "pyset")
+        return ()
+
+    def expr_for(self, e: ast.expr, pre: List[str], want: Optional[str]) -> Tuple[str, str]:
+        """`expr`, for a value that is stored into a slot of the declared type `want`: an empty container literal gets that type"""
+        if want is not None:
+            w = split_ty(want)[1][0] if split_ty(want)[0] == "opt" else want
+            lits = self.empty_literal(e)
+            if isinstance(e, ast.Call) and dotted(e.func) == "OrderedDict" and not e.args and not e.keywords:
+                lits = ("kdict",)
+            if isinstance(e, ast.List) and not e.elts:
+                lits = ("list", "natlist", "qitems")
+            if lits and (w in lits or split_ty(w)[0] in lits or ((w == "set" or split_ty(w)[0] == "eset") and "strset" in lits) or (split_ty(w)[0] in ("kdict", "kddict") and "dict" in lits)):
+                return "[]", w
+        return self.expr(e, pre)
 
     def fstring_text(self, e: ast.JoinedStr) -> str:
         """what stands for the text of an f-string: a fixed token, or (ModuleSpec.fstring_text) its constant parts with `{}` holes"""
@@ -770,7 +1014,14 @@ class FnTranslator:
         if self.spec.recursive and d in (f"self.{self.spec.py_name}", self.spec.py_name) and self.callee_of(d) is None:
             return self.call_translated(self, e, pre, rec=True)
         if d == "set" and not e.args:
+            if self.ms.set_refs:
+                return self.new_set("[]", pre), "sref"
             return "[]", "set"
+        if d == "set" and len(e.args) == 1 and not e.keywords:
+            t, ty = self.expr(e.args[0], pre)
+            if ty == "strlist":
+                return f"(List.eraseDups {t})", "strset"  # `set(d.keys())`
+            raise Unsupported(f"set() of {ty}")
         if d == "copy" and len(e.args) == 1:
             t, ty = self.expr(e.args[0], pre)
             if ty in ("natlist", "set"):
@@ -785,6 +1036,8 @@ class FnTranslator:
         if isinstance(e.func, ast.Attribute) and e.func.attr == "copy" and not e.args and d not in self.ms.methods:
             a, aty = self.expr(e.func.value, pre)
             if split_ty(aty)[0] in ("dict", "ddict") or aty in ("set", "natlist"):
+                if self.has_refs(aty):
+                    raise Unsupported(f"copy() of {aty}: its values are references")
                 return a, aty  # dicts / sets / lists of ids are values: a shallow copy is the same value
             raise Unsupported(f"copy() of {aty}")
 
@@ -811,12 +1064,34 @@ class FnTranslator:
             s, sty = self.expr(e.args[0].args[0], pre)
             if sty != "set":
                 raise Unsupported(f"next(iter()) over {sty}")
-            return f"(← PSet.nextIter {s})", "nat"
+            return self.M(f"PSet.nextIter {s}"), "nat"
         if d == "len" and len(e.args) == 1:
             s, sty = self.expr(e.args[0], pre)
+            if sty == "sref":
+                return f"(SHeap.len {self.heap()} {s})", "nat"
+            if split_ty(sty)[0] in ("kdict", "kddict", "kitems", "list", "eset"):
+                return f"({s}).length", "nat"
             if sty not in ("set", "natlist"):
                 raise Unsupported(f"len() of {sty}")
             return f"{s}.length", "nat"
+        if d == "max" and len(e.args) == 1 and not e.keywords:
+            s, sty = self.expr(e.args[0], pre)
+            if sty == "natlist" or sty == "list[nat]":
+                return self.M(f"PyList.max {s}"), "nat"  # ValueError on an empty sequence
+            raise Unsupported(f"max() of {sty}")
+        if d == "deepcopy" and len(e.args) == 1 and not e.keywords:
+            s, sty = self.expr(e.args[0], pre)
+            kd = self.key_dict(sty)
+            if kd is not None and kd[1] == "sref":
+                return f"(KDict.snapshot {s} {self.heap()})", f"kdict[{kd[0]},set]"  # the contents at this moment, as values
+            if sty in ("set", "natlist"):
+                return s, sty
+            raise Unsupported(f"deepcopy() of {sty}")
+        if d == "OrderedDict" and len(e.args) == 1 and not e.keywords:
+            s, sty = self.expr(e.args[0], pre)
+            if split_ty(sty)[0] == "kitems":
+                return f"(KDict.ofItems {s})", "kdict[" + ",".join(split_ty(sty)[1]) + "]"
+            raise Unsupported(f"OrderedDict() of {sty}")
         if d == "isinstance" and len(e.args) == 2 and isinstance(e.args[1], ast.Tuple):
             parts = []
             for cl in e.args[1].elts:
@@ -826,7 +1101,7 @@ class FnTranslator:
                 parts.append(self.ms.isinstance_map[key])
             return "(" + " || ".join(parts) + ")", "bool"
         if d == "isinstance" and len(e.args) == 2:
-            key = (dotted(e.args[0]) or "?", dotted(e.args[1]) or ast.unparse(e.args[1]))
+            key = (dotted(e.args[0]) or ast.unparse(e.args[0]), dotted(e.args[1]) or ast.unparse(e.args[1]))
             if key in self.ms.isinstance_map:
                 return self.ms.isinstance_map[key], "bool"
             raise Unsupported(f"isinstance{key}")
@@ -838,15 +1113,25 @@ class FnTranslator:
             return (f"(PSet.issubset {a} {b})", "bool") if e.func.attr == "issubset" else (f"(PSet.intersection {a} {b})", "set")
         if d == "list" and len(e.args) == 1:
             t, ty = self.expr(e.args[0], pre)
+            if split_ty(ty)[0] == "kitems":
+                return t, ty  # list(view): the items in order
             if ty in ("items", "strlist", "natlist"):
                 return t, ty  # list(view) of an insertion-ordered dict view is the association list itself
             raise Unsupported(f"list() of {ty}")
-        if isinstance(e.func, ast.Attribute) and e.func.attr in ("items", "keys", "get", "values", "popitem") and dotted(e.func) not in self.ms.getters and dotted(e.func) not in self.ms.opaque:
+        if isinstance(e.func, ast.Attribute) and e.func.attr in ("items", "keys", "get", "values", "popitem") and dotted(e.func) not in self.ms.getters and dotted(e.func) not in self.ms.opaque and not (d and d.startswith("self.") and d[5:] in self.mod.translated):
             recv, rty = self.expr(e.func.value, pre)
             recv, rty = self.deref_receiver(recv, rty)
             rh, ra = split_ty(rty)
+            if rh in ("kdict", "kddict") and not e.args and e.func.attr in ("items", "keys"):
+                if e.func.attr == "items":
+                    return recv, f"kitems[{ra[0]},{ra[1]}]"
+                return f"(KDict.keys {recv})", ("natlist" if ra[0] in ("nat", "uuid") else f"list[{ra[0]}]")
             if rh == "ddict" and e.func.attr == "items" and not e.args:
                 return recv, f"items[{ra[0]},{ra[1]}]"
+            if rh == "ddict" and e.func.attr == "get" and len(e.args) == 1 and self.extm:
+                k, kty = self.expr(e.args[0], pre)
+                if self.elem_eq(kty, ra[0]):
+                    return f"(NDict.get? {recv} {k})", f"opt[{ra[1]}]"  # `.get` does not insert
             if rh == "dict" and ra:
                 if e.func.attr == "items" and not e.args:
                     return recv, f"items[{ra[0]},{ra[1]}]"
@@ -856,7 +1141,7 @@ class FnTranslator:
                     return f"(NDict.keys {recv})", "natlist"
                 if e.func.attr == "popitem" and not e.args:
                     item, rest = self.fresh("item"), self.fresh("rest")
-                    pre.append(f"let ({item}, {rest}) ← NDict.popitem {recv}")
+                    pre.append(f"let ({item}, {rest}) ← {self.lift(f'NDict.popitem {recv}')}")
                     pre.extend(self.assign_to(e.func.value, rest))
                     return item, f"tuple[{ra[0]},{ra[1]}]"
                 if e.func.attr == "get" and len(e.args) == 2 and isinstance(e.args[1], ast.Tuple) and all(isinstance(x, ast.Constant) and x.value is None for x in e.args[1].elts):
@@ -889,9 +1174,44 @@ class FnTranslator:
             return self.call_translated(self.mod.translated[d[5:]], e, pre)
         if d and self.ms.cls is None and d in self.mod.translated:
             return self.call_translated(self.mod.translated[d], e, pre)
+        if d and d in self.mod.translated and self.mod.translated[d].spec.nested_in == self.spec.py_name:
+            return self.call_translated(self.mod.translated[d], e, pre)
         if d in self.ms.opaque:
             return self.call_opaque(d, e, pre)
         raise Unsupported(f"call {ast.unparse(e)}")
+
+    # ---------------------------------------------------------------- exceptions that carry the state at the raise (`exc_state`)
+    @property
+    def extm(self) -> bool:
+        return self.ms.set_refs or self.ms.ext
+
+    @property
+    def st_mode(self) -> bool:
+        return self.ms.exc_state and bool(self.state_components())
+
+    def state_components(self) -> List[Tuple[str, str]]:
+        return [c for c in self.ret_components() if c[0] != "<ret>"]
+
+    def ST(self) -> str:
+        """the tuple of the function's mutable state (the names are fixed: mutated parameters are shadowed by `let mut`)"""
+        parts = [lname(n) for n, _ in self.state_components()]
+        return parts[0] if len(parts) == 1 else "(" + ", ".join(parts) + ")"
+
+    def st_type(self) -> str:
+        return " × ".join(t for _, t in self.state_components())
+
+    def lift(self, txt: str) -> str:
+        """a run-time primitive / a callee without state, of type `Except PyExc α`, inside a function whose exceptions carry the state"""
+        return f"withSt {self.ST()} ({txt})" if self.st_mode else txt
+
+    def M(self, txt: str) -> str:
+        return f"(← {self.lift(txt)})"
+
+    def throw(self, exc: str) -> str:
+        return f"throw ({exc}, {self.ST()})" if self.st_mode else f"throw {exc}"
+
+    def rt(self, name: str) -> str:
+        return self.ms.rt_names.get(name, name)
 
     def fresh(self, base: str) -> str:
         self.tmp += 1
@@ -944,6 +1264,10 @@ class FnTranslator:
             else:
                 call += " self"
         call += "".join(" " + t for t in texts)
+        for cv, cty in callee.spec.closure.items():
+            if self.env.get(cv) != cty or cv in self.rename:
+                raise Unsupported(f"closure variable {cv} of {callee.spec.py_name} is not a local of type {cty} here")
+            call += " " + lname(cv)
         for av in callee.attr_params:
             if av not in self.env:
                 raise Unsupported(f"callee {callee.spec.py_name} reads attribute variable {av} unknown here")
@@ -995,6 +1319,26 @@ class FnTranslator:
                     b = self.fresh((tgt or n).replace(".", "_"))
                     binders.append(b)
                     rebind.extend(self.assign_to(src, b))
+        callee_st = callee.st_mode
+        if callee_st or self.st_mode:
+            if self.try_flag is not None:
+                raise Unsupported(f"call of {callee.spec.py_name} inside try/except in a module whose exceptions carry the state")
+            if not callee_st:
+                call = self.lift(call)  # the callee has no mutable state: the state at its raise is the caller's
+            elif not self.st_mode:
+                call = f"dropSt ({call})"  # nothing of what the callee mutates belongs to the caller's state
+            else:
+                # the callee's exception carries ITS state at the raise: what it mutated is re-bound before the exception goes on
+                exc = self.fresh("exc")
+                sbind = [b for b in binders if b != result]
+                vb = self.fresh("v")
+                pat = binders[0] if len(binders) == 1 else "(" + ", ".join(binders) + ")"
+                lines = [f"let {pat} ← match {call} with", f"  | .error ({', '.join([exc] + sbind)}) =>"]
+                lines += ["    " + ln_ for r in rebind for ln_ in r.split("\n")]
+                lines += [f"    throw ({exc}, {self.ST()})", f"  | .ok {vb} => pure {vb}"]
+                pre.append("\n".join(lines))
+                pre.extend(rebind)
+                return result, callee.spec.ret
         if self.try_flag is not None:
             # inside try/except Exception: an exception of the callee is caught here (effects the callee logged before raising are lost)
             if result != "()" and self.try_assign is None:
@@ -1084,9 +1428,9 @@ class FnTranslator:
             return result, m.ret
         if not binders:
             if m.monadic:
-                pre.append(f"let _ ← {call}")
+                pre.append(f"let _ ← {self.lift(call)}")
         else:
-            pre.append(f"let {pat} {'←' if m.monadic else ':='} {call}")
+            pre.append(f"let {pat} {'←' if m.monadic else ':='} {self.lift(call) if m.monadic else call}")
         pre.extend(rebind)
         return result, m.ret
 
@@ -1096,6 +1440,14 @@ class FnTranslator:
             return it, "nat"
         if ity == "qlist":
             return it, "queue"
+        if ity == "pyval":
+            return self.M(f"PyVal.iter {it}"), "pyval"  # TypeError for a value that is not iterable
+        if ity == "pyset":
+            return it, "pyval"
+        if ity == "opt[pyset]":
+            return self.M(f"Opt.derefIn {it}"), "pyval"  # `for x in None` is a TypeError
+        if ity in ("strset", "strlist"):
+            return it, "str"
         h, a = split_ty(ity)
         if h == "dict" and a:
             return f"(NDict.keys {it})", a[0]  # iterating a dict yields its keys in insertion order
@@ -1131,12 +1483,44 @@ class FnTranslator:
         pre.append("\n".join(lines))
         return acc, "natlist"
 
+    def dict_comp(self, e: ast.DictComp, pre: List[str]) -> Tuple[str, str]:
+        """`{k: v for k, v in d.items() if c}` over the items of a `str`-keyed dict, as the loop it abbreviates"""
+        if len(e.generators) != 1 or e.generators[0].is_async or not isinstance(e.generators[0].target, ast.Tuple):
+            raise Unsupported("dict comprehension with several clauses")
+        g = e.generators[0]
+        names = [x.id if isinstance(x, ast.Name) else None for x in g.target.elts]  # type: ignore[attr-defined]
+        it, ity = self.expr(g.iter, pre)
+        if ity != "items" or len(names) != 2 or None in names or names[0] == names[1] or any(n in self.env for n in names):
+            raise Unsupported(f"dict comprehension over {ity}")
+        acc = self.fresh("comp")
+        self.env[names[0]], self.env[names[1]] = "str", "pyval"  # type: ignore[index]
+        lines = [f"let mut {acc} : PyDict := []", f"for ({lname(names[0])}, {lname(names[1])}) in {it} do"]  # type: ignore[arg-type]
+        inner: List[str] = []
+        conds = []
+        for c in g.ifs:
+            ct, cty = self.expr(c, inner)
+            conds.append(self.truthy(ct, cty))
+        k, kty = self.expr(e.key, inner)
+        v, vty = self.expr(e.value, inner)
+        del self.env[names[0]], self.env[names[1]]  # type: ignore[arg-type]
+        if kty != "str" or vty != "pyval":
+            raise Unsupported(f"dict comprehension building {kty}: {vty}")
+        for ln_ in inner:
+            lines.extend("  " + x for x in ln_.split("\n"))
+        lines.append(f"  if {' && '.join(conds) or 'true'} then")
+        lines.append(f"    {acc} := PyDict.set {acc} {k} {v}")
+        pre.append("\n".join(lines))
+        return acc, "dict"
+
     def set_comp(self, e: ast.SetComp, pre: List[str]) -> Tuple[str, str]:
         """`{f(x) for x in xs}`: the elements in first-occurrence order"""
         if len(e.generators) != 1 or e.generators[0].ifs or not isinstance(e.generators[0].target, ast.Name) or e.generators[0].is_async:
             raise Unsupported("set comprehension with several clauses / conditions")
         it, ity = self.expr(e.generators[0].iter, pre)
-        it, ety = self.iter_of(it, ity)
+        if split_ty(ity)[0] == "eset" and self.extm:
+            ety = split_ty(ity)[1][0]  # the result is a SET: the order in which the records are visited only shows in the list that represents it
+        else:
+            it, ety = self.iter_of(it, ity)
         v = e.generators[0].target.id
         saved = self.env.get(v)
         self.env[v] = ety
@@ -1163,7 +1547,7 @@ class FnTranslator:
             # outside any try of this function: the exception leaves the function (the caller may catch it)
             if o.raise_arg is not None:
                 raise Unsupported(f"{d}: per-object raise oracle outside try/except")
-            pre.append(f'if {lname(o.may_raise)} then\n  throw (.exception "{o.event} raised")\nelse\n  {ev}')
+            pre.append(f'if {lname(o.may_raise)} then\n  {self.throw(f"(.exception {chr(34)}{o.event} raised{chr(34)})")}\nelse\n  {ev}')
         elif o.may_raise:
             if o.raise_arg is not None:
                 arg = e.func.value if o.raise_arg == -1 else e.args[o.raise_arg]  # type: ignore[attr-defined]
@@ -1197,10 +1581,11 @@ class FnTranslator:
     def block(self, stmts: List[ast.stmt], ind: int) -> None:
         # a local first assigned inside a nested block is a Lean `let mut` scoped to that block: it is forgotten afterwards,
         # so a later use outside the block (legal in Python) is reported as an unknown name instead of being mistranslated
-        env0, declared0 = dict(self.env), set(self.declared)
+        env0, declared0, fresh0 = dict(self.env), set(self.declared), set(self.fresh_objs)
         try:
             self._block(stmts, ind)
         finally:
+            self.fresh_objs = fresh0
             if ind > 1:
                 self.env = {k: v for k, v in self.env.items() if k in env0}
                 self.declared = {k for k in self.declared if k in declared0}
@@ -1309,6 +1694,288 @@ class FnTranslator:
         else:
             raise Unsupported(f"mutation of {ast.unparse(tgt)}")
 
+    def static_type(self, e: ast.expr) -> Optional[str]:
+        """type of a name / a field of self / an attribute of an object, without translating it"""
+        d = dotted(e)
+        if isinstance(e, ast.Name):
+            return self.env.get(e.id)
+        sf = self.sfield(d)
+        if sf is not None:
+            return sf[1]
+        if isinstance(e, ast.Attribute):
+            vt = self.static_type(e.value)
+            return self.ms.obj_fields.get(vt or "", {}).get(e.attr)
+        return None
+
+    def value_method(self, c: ast.Call, ind: int) -> bool:
+        """a statement `x.m(args)` on a container that is a VALUE of the newer types (a set of arbitrary hashable values, a `str`-keyed
+        dict, a set / list of records): the container is replaced by the new value.  False: not such a call"""
+        assert isinstance(c.func, ast.Attribute)
+        m, recv = c.func.attr, c.func.value
+        rty = self.static_type(recv)
+        if rty is None or c.keywords:
+            return False
+        pre: List[str] = []
+        inner = split_ty(rty)[1][0] if split_ty(rty)[0] == "opt" else rty
+        if inner == "pyset" and m in ("add", "update") and len(c.args) == 1:
+            if isinstance(recv, ast.Name) and recv.id in self.spec.params and recv.id not in self.fresh_objs:
+                raise Unsupported(f"{ast.unparse(c)[:60]}: mutation of the caller's set object (the parameter was not re-assigned a fresh set in this block)")
+            cur, _ = self.expr(recv, pre)
+            if inner != rty:
+                cur = self.M(f"Opt.deref {cur}")  # `None.add` is an AttributeError
+            a, aty = self.expr(c.args[0], pre)
+            if m == "add" and aty == "str":
+                a, aty = f"(PyVal.str {a})", "pyval"
+            if aty != "pyval":
+                raise Unsupported(f"{m}({aty}) on a set of values")
+            new = self.M(f"{'PySet.add' if m == 'add' else 'PySet.update'} {cur} {a}")  # TypeError: unhashable element / not iterable
+            self.flush(ind, pre)
+            for ln_ in self.assign_to(recv, new if inner == rty else f"some {new}"):
+                self.emit(ind, ln_)
+            return True
+        if rty == "dict" and m == "update" and len(c.args) == 1:
+            cur, _ = self.expr(recv, pre)
+            a, aty = self.expr(c.args[0], pre)
+            if aty != "dict":
+                raise Unsupported(f"dict.update({aty})")
+            self.flush(ind, pre)
+            for ln_ in self.assign_to(recv, f"PyDict.update {cur} {a}"):
+                self.emit(ind, ln_)
+            return True
+        return self.value_method2(c, ind, rty)
+
+
+    # ---------------------------------------------------------------- shared set objects, dicts with arbitrary keys (`set_refs`)
+    def heap(self, write: bool = False) -> str:
+        """the world variable `sheap` is used here"""
+        if not self.ms.set_refs:
+            raise Unsupported("a set object used as a reference in a module without `set_refs`")
+        self.heap_read = True
+        self.heap_written = self.heap_written or write
+        if "sheap" not in self.env:
+            raise Unsupported("internal: the heap of set objects is not a parameter here (first pass missing)")
+        return "sheap"
+
+    def new_set(self, content: str, pre: List[str]) -> str:
+        """`set()` / `{x}`: a new set object; the handle"""
+        r, h = self.fresh("ref"), self.fresh("sheap")
+        pre.append(f"let ({r}, {h}) := SHeap.alloc {self.heap(True)} {content}")
+        pre.append(f"sheap := {h}")
+        return r
+
+    def elem_eq(self, kty: str, want: str) -> bool:
+        return kty == want or {kty, want} <= {"nat", "uuid"}
+
+    def iter_elems(self, it_ast: ast.expr, pre: List[str]) -> Tuple[str, str]:
+        """what a `for` iterates over: (Lean list, type of the elements)"""
+        if isinstance(it_ast, ast.Call) and dotted(it_ast.func) == "enumerate" and len(it_ast.args) == 1 and not it_ast.keywords:
+            inner, ety = self.iter_elems(it_ast.args[0], pre)
+            return f"(PyList.enumerate {inner})", f"tuple[nat,{ety}]"
+        if isinstance(it_ast, ast.Call) and dotted(it_ast.func) == "range" and len(it_ast.args) in (1, 2) and not it_ast.keywords:
+            ts = [self.expr(a, pre) for a in it_ast.args]
+            if any(ty != "nat" for _, ty in ts):
+                raise Unsupported(f"range over {[ty for _, ty in ts]}")
+            return (f"(List.range {paren(ts[0][0])})" if len(ts) == 1 else f"(PyList.range {paren(ts[0][0])} {paren(ts[1][0])})"), "nat"
+        it, ity = self.expr(it_ast, pre)
+        if ity == "sref":
+            return f"(SHeap.get {self.heap()} {it})", "uuid"
+        h, a = split_ty(ity)
+        if h in ("items", "kitems") and len(a) == 2:
+            return it, f"tuple[{a[0]},{a[1]}]"
+        if h in ("kdict", "kddict"):
+            return f"(KDict.keys {it})", a[0]
+        if h == "list" and a:
+            return it, a[0]
+        if h == "eset":
+            raise Unsupported(f"iteration over a set of {a[0]}: its order is observable and must be an explicit input (`iter_map`)")
+        return self.iter_of(it, ity)
+
+    def bind_target(self, tgt: ast.expr, ty: str, names: List[str]) -> str:
+        """the Lean pattern of a `for` target; the names it binds get their types"""
+        if isinstance(tgt, ast.Name):
+            if tgt.id == "_":
+                return "_"
+            if tgt.id in self.rename:
+                raise Unsupported(f"loop variable {tgt.id} is flow-narrowed here")
+            if tgt.id in names:
+                raise Unsupported(f"loop variable {tgt.id} bound twice")
+            if tgt.id in self.declared and self.env.get(tgt.id) != ty and tgt.id not in [n for _, ns in self.loop_stack for n in ns]:
+                raise Unsupported(f"loop variable {tgt.id} changes type {self.env[tgt.id]} -> {ty}")
+            self.env[tgt.id] = ty
+            self.declared.add(tgt.id)
+            names.append(tgt.id)
+            return lname(tgt.id)
+        if isinstance(tgt, ast.Tuple):
+            h, a = split_ty(ty)
+            if h != "tuple" or len(a) != len(tgt.elts):
+                raise Unsupported(f"for target {ast.unparse(tgt)} over elements of type {ty}")
+            return "(" + ", ".join(self.bind_target(x, t, names) for x, t in zip(tgt.elts, a)) + ")"
+        raise Unsupported(f"for target {ast.unparse(tgt)}")
+
+    def stmt_for_general(self, s: ast.For, ind: int) -> None:
+        pre: List[str] = []
+        if s.orelse:
+            raise Unsupported("for/else")
+        header = f"for {ast.unparse(s.target)} in {ast.unparse(s.iter)}"
+        if header in self.ms.iter_map:
+            it, ety = self.ms.iter_map[header]
+        else:
+            it, ety = self.iter_elems(s.iter, pre)
+        self.flush(ind, pre)
+        self.check_loop_mutation(s)
+        w0 = self.heap_written
+        self.heap_written = False
+        names: List[str] = []
+        # a name bound by an enclosing loop and re-bound here: Python overwrites the variable, Lean shadows it - the enclosing
+        # body must not read it after this loop
+        pat = self.bind_target(s.target, ety, names)
+        for outer, onames in self.loop_stack:
+            for n in names:
+                if n in onames:
+                    for node in ast.walk(outer):
+                        if isinstance(node, ast.Name) and node.id == n and isinstance(node.ctx, ast.Load) and node.lineno > (s.end_lineno or s.lineno):
+                            raise Unsupported(f"the loop variable {n} of an enclosing loop is re-bound by an inner loop and read afterwards")
+        objloop = isinstance(s.iter, ast.Name) and isinstance(s.target, ast.Name) and self.is_objty(ety) and self.obj_loop_mutates(s)
+        if objloop:
+            # the objects of the list are VALUES here: the loop rebuilds the list from the (possibly changed) objects.
+            # ASSUMED: the objects are reachable only through this list.
+            for node in ast.walk(ast.Module(body=s.body, type_ignores=[])):
+                if isinstance(node, (ast.Continue, ast.Break, ast.Return)):
+                    raise Unsupported(f"{header}: continue / break / return in a loop that changes the objects of the list it iterates")
+            acc = self.fresh("objs")
+            self.emit(ind, f"let mut {acc} : List {paren(LEAN_TY[ety])} := []")
+        self.emit(ind, f"for {pat} in {it} do")
+        if objloop:
+            self.emit(ind + 1, f"let mut {pat} := {pat}")
+            self.obj_loop_vars.add(names[0])
+        else:
+            self.loop_var_shadows(s, names, ind + 1)
+        self._loop_depth += 1
+        self.while_flags.append(None)
+        self.loop_stack.append((s, set(names)))
+        self.block(s.body, ind + 1)
+        self.loop_stack.pop()
+        self.while_flags.pop()
+        self._loop_depth -= 1
+        if objloop:
+            self.obj_loop_vars.discard(names[0])
+            self.emit(ind + 1, f"{acc} := {acc} ++ [{pat}]")
+            for ln_ in self.assign_to(s.iter, acc):
+                self.emit(ind, ln_)
+        if self.heap_written and "SHeap.get" in it:
+            raise Unsupported(f"{header}: the body changes set objects while a set object is iterated")
+        self.heap_written = self.heap_written or w0
+
+    def definite(self, ss: List[ast.stmt]) -> Optional[set]:
+        """names certainly assigned (plain `n = …`) when control falls through the statements; None: it never falls through"""
+        out: set = set()
+        for st in ss:
+            if isinstance(st, (ast.Return, ast.Raise, ast.Continue, ast.Break)):
+                return None
+            if isinstance(st, ast.Assign) and len(st.targets) == 1 and isinstance(st.targets[0], ast.Name):
+                out.add(st.targets[0].id)
+            if isinstance(st, ast.If):
+                b, o = self.definite(st.body), self.definite(st.orelse)
+                if b is None and o is None:
+                    return None
+                out |= o if b is None else b if o is None else (b & o)  # type: ignore[operator]
+        return out
+
+    def hoist_branch_locals(self, s: ast.If, ind: int) -> None:
+        """locals first assigned in EVERY branch of an `if` that falls through, and used afterwards: Lean scopes a `let mut` to its
+        block, so they are declared before the `if` (the initial value is never read: every path assigns first)"""
+        if not self.ms.local_decl or not s.orelse:
+            return
+        d = self.definite([s])
+        for n in sorted(d or ()):
+            if n in self.declared or n not in self.spec.local_types:
+                continue
+            ty = self.spec.local_types[n]
+            for br in (s.body, s.orelse):
+                # inside a branch nothing may read the name before the assignment
+                for st in br:
+                    if isinstance(st, ast.Assign) and len(st.targets) == 1 and isinstance(st.targets[0], ast.Name) and st.targets[0].id == n:
+                        break
+                    if any(isinstance(x, ast.Name) and x.id == n for x in ast.walk(st)) and not isinstance(st, ast.If):
+                        raise Unsupported(f"{n} may be read before it is assigned")
+            self.env[n] = ty
+            self.declared.add(n)
+            init = "0" if ty in NAT_LIKE else "none" if split_ty(ty)[0] == "opt" else "[]" if split_ty(ty)[0] in ("list", "eset", "kdict", "kddict") or ty in ("set", "natlist") else "default"
+            self.emit(ind, f"let mut {lname(n)} : {LEAN_TY[ty]} := {init}  -- assigned on every path below before it is read")
+
+    def narrowed_mut(self, n: str, inner: str, b: str, ind: int, body: Callable[[], None]) -> None:
+        """run `body` with the Optional local `n` known to be `some b`: inside, `n` is the MUTABLE local `b'` (an assignment to `n`
+        also updates the Optional variable, so the value is right after the arm)"""
+        bm = b + "'"
+        self.emit(ind, f"let mut {bm} : {LEAN_TY[inner]} := {b}")
+        saved_ty = self.env[n]
+        self.env[n] = inner
+        self.rename[n] = bm
+        self.narrow_mut.add(n)
+        try:
+            body()
+        finally:
+            self.env[n] = saved_ty
+            del self.rename[n]
+            self.narrow_mut.discard(n)
+
+    def value_method2(self, c: ast.Call, ind: int, rty: str) -> bool:
+        assert isinstance(c.func, ast.Attribute)
+        m, recv = c.func.attr, c.func.value
+        pre: List[str] = []
+        h, a = split_ty(rty)
+        if rty == "sref" and m in ("add", "remove") and len(c.args) == 1:
+            r, _ = self.expr(recv, pre)
+            x, xty = self.expr(c.args[0], pre)
+            if xty not in NAT_LIKE:
+                raise Unsupported(f"{m}({xty}) on a set object")
+            self.flush(ind, pre)
+            self.emit(ind, f"sheap := SHeap.add {self.heap(True)} {r} {x}" if m == "add" else f"sheap := {self.M(f'SHeap.remove {self.heap(True)} {r} {x}')}")
+            return True
+        if rty == "set" and m == "update" and len(c.args) == 1 and isinstance(recv, ast.Attribute) and isinstance(recv.value, ast.Name) and recv.value.id in self.obj_loop_vars:
+            cur, _ = self.expr(recv, pre)
+            x, xty = self.expr(c.args[0], pre)
+            if xty != "set":
+                raise Unsupported(f"update({xty}) on a set")
+            self.flush(ind, pre)
+            for ln_ in self.assign_to(recv, f"PSet.update {cur} {x}"):
+                self.emit(ind, ln_)
+            return True
+        if (h in ("list", "eset") or rty == "qitems") and m in ("append", "add") and len(c.args) == 1 and (m == "append") == (h == "list" or rty == "qitems"):
+            cur, _ = self.expr(recv, pre)
+            x, xty = self.expr(c.args[0], pre)
+            want = a[0] if a else rty
+            cx = self.coerce(x, xty, want)
+            if rty == "qitems":
+                cx = self.ms.list_coerce.get(("qitems", xty), "{}").format(x) if ("qitems", xty) in self.ms.list_coerce else None
+            if cx is None:
+                raise Unsupported(f"{m}({xty}) on {rty}")
+            self.flush(ind, pre)
+            new = f"{cur} ++ [{cx}]" if m == "append" else f"PyList.addE {cur} {paren(cx)}"
+            for ln_ in self.assign_to(recv, new):
+                self.emit(ind, ln_)
+            return True
+        if h == "kitems" and m == "insert" and len(c.args) == 2:
+            cur, _ = self.expr(recv, pre)
+            pos, pty = self.expr(c.args[0], pre)
+            x, xty = self.expr(c.args[1], pre)
+            if pty != "nat" or xty != f"tuple[{a[0]},{a[1]}]":
+                raise Unsupported(f"insert({pty}, {xty}) on {rty}")
+            self.flush(ind, pre)
+            for ln_ in self.assign_to(recv, f"PyList.insert {cur} {paren(pos)} {x}"):
+                self.emit(ind, ln_)
+            return True
+        if h == "kdict" and m == "move_to_end" and len(c.args) == 1:
+            cur, _ = self.expr(recv, pre)
+            k, kty = self.expr(c.args[0], pre)
+            if not self.elem_eq(kty, a[0]):
+                raise Unsupported(f"move_to_end({kty}) on {rty}")
+            self.flush(ind, pre)
+            for ln_ in self.assign_to(recv, self.M(f"KDict.moveToEnd {cur} {k}")):
+                self.emit(ind, ln_)
+            return True
+        return False
+
     def check_loop_mutation(self, loop: ast.For) -> Optional[str]:
         """Python raises RuntimeError when a dict / set changes size while it is iterated; the translation evaluates the
         iterable once - so a body that may change the iterated container is refused"""
@@ -1385,10 +2052,23 @@ class FnTranslator:
     def loop_var_shadows(self, loop: ast.For, names: List[str], ind: int) -> None:
         """a loop variable assigned inside the body needs a mutable shadow (the iteration itself is not affected, as in Python)"""
         assigned = set()
+        rebound = set()  # names that an inner `for` binds again (Lean shadows them inside that loop)
+        for node in ast.walk(ast.Module(body=loop.body, type_ignores=[])):
+            if isinstance(node, ast.For):
+                rebound |= {x.id for x in ast.walk(node.target) if isinstance(x, ast.Name)}
         for node in ast.walk(ast.Module(body=loop.body, type_ignores=[])):
             if isinstance(node, ast.Name) and isinstance(node.ctx, ast.Store):
                 assigned.add(node.id)
+        plain = set()
+        for node in ast.walk(ast.Module(body=loop.body, type_ignores=[])):
+            if isinstance(node, (ast.Assign, ast.AugAssign, ast.AnnAssign)):
+                for tg in (node.targets if isinstance(node, ast.Assign) else [node.target]):
+                    plain |= {x.id for x in ast.walk(tg) if isinstance(x, ast.Name) and isinstance(x.ctx, ast.Store)}
         for n in names:
+            if n in rebound and n not in plain:
+                continue
+            if n in rebound and n in plain:
+                raise Unsupported(f"loop variable {n} is both assigned and re-bound by an inner loop")
             if n in assigned:
                 self.emit(ind, f"let mut {lname(n)} := {lname(n)}")
 
@@ -1399,6 +2079,50 @@ class FnTranslator:
         if isinstance(s, ast.Pass):
             self.emit(ind, "pure ()")
             return
+        if isinstance(s, ast.FunctionDef):
+            ft = self.mod.translated.get(s.name)
+            if ft is None or ft.spec.nested_in != self.spec.py_name:
+                raise Unsupported(f"nested def {s.name} (not translated as a nested function of {self.spec.py_name})")
+            self.emit(ind, f"-- def {s.name}: translated as `{ft.lean_name()}` (closure variables {list(ft.spec.closure)} are parameters)")
+            return
+        if isinstance(s, ast.Assign) and len(s.targets) == 1 and isinstance(s.targets[0], ast.Name) and s.targets[0].id == "_" and self.extm:
+            t, _ = self.expr(s.value, pre)
+            self.flush(ind, pre)
+            self.emit(ind, f"let _ := {t}")
+            return
+        if self.extm and isinstance(s, ast.Expr) and isinstance(s.value, ast.Call) and isinstance(s.value.func, ast.Attribute) and s.value.func.attr in ("add", "remove", "update") and isinstance(s.value.func.value, ast.Subscript) and len(s.value.args) == 1 and not s.value.keywords:
+            # `d[k].add(x)` / `d[k].remove(x)`: the item is read first (a defaultdict inserts a missing key), then the set object changes
+            c, tgt = s.value, s.value.func.value
+            dty = self.static_type(tgt.value)
+            kd = self.key_dict(dty or "")
+            if c.func.attr == "update" and dty is not None and split_ty(dty)[0] == "ddict" and split_ty(dty)[1][1] == "set":  # type: ignore[attr-defined]
+                dt, _ = self.expr(tgt.value, pre)
+                k, kty = self.expr(tgt.slice, pre)
+                x, xty = self.expr(c.args[0], pre)
+                if not self.elem_eq(kty, split_ty(dty)[1][0]) or xty != "set":
+                    raise Unsupported(f"{ast.unparse(s)[:80]} on {dty}")
+                self.flush(ind, pre)
+                for ln_ in self.assign_to(tgt.value, f"DDict.updateAt {dt} {k} {x}"):
+                    self.emit(ind, ln_)
+                return
+            if kd is not None and split_ty(kd[1])[0] == "eset" and split_ty(dty or "")[0] == "kddict" and c.func.attr == "add":  # type: ignore[attr-defined]
+                dt, _ = self.expr(tgt.value, pre)
+                k, kty = self.expr(tgt.slice, pre)
+                x, xty = self.expr(c.args[0], pre)
+                if not self.elem_eq(kty, kd[0]) or [xty] != split_ty(kd[1])[1]:
+                    raise Unsupported(f"{ast.unparse(s)[:80]} on {dty}")
+                self.flush(ind, pre)
+                for ln_ in self.assign_to(tgt.value, f"KDict.addAt {dt} {k} {x}"):
+                    self.emit(ind, ln_)
+                return
+            if kd is not None and kd[1] == "sref" and c.func.attr in ("add", "remove"):  # type: ignore[attr-defined]
+                r, _ = self.expr(tgt, pre)
+                x, xty = self.expr(c.args[0], pre)
+                if xty not in NAT_LIKE:
+                    raise Unsupported(f"{ast.unparse(s)[:80]}: element of type {xty}")
+                self.flush(ind, pre)
+                self.emit(ind, f"sheap := SHeap.add {self.heap(True)} {r} {x}" if c.func.attr == "add" else f"sheap := {self.M(f'SHeap.remove {self.heap(True)} {r} {x}')}")  # type: ignore[attr-defined]
+                return
         if isinstance(s, ast.Expr) and isinstance(s.value, ast.Yield):
             # a generator is translated as "the list of everything it yields" (and the state after it is exhausted)
             if s.value.value is None:
@@ -1416,11 +2140,24 @@ class FnTranslator:
                 dt, dty = self.expr(tg.value, pre)
                 k, kty = self.expr(tg.slice, pre)
                 dh, da = split_ty(dty)
+                if dty == "dict" and kty in ("str", "pyval"):
+                    self.flush(ind, pre)
+                    for ln_ in self.assign_to(tg.value, self.M(f"{'PyDict.delItem' if kty == 'str' else 'PyDict.delVal'} {dt} {k}")):
+                        self.emit(ind, ln_)
+                    continue
+                kd = self.key_dict(dty)
+                if kd is not None and self.eq_type(kty, kd[0]):
+                    self.flush(ind, pre)
+                    for ln_ in self.assign_to(tg.value, self.M(f"KDict.delItem {dt} {k}")):
+                        self.emit(ind, ln_)
+                    continue
                 if dh != "dict" or not da or not (kty == da[0] or {kty, da[0]} == {"nat", "uuid"}):
                     raise Unsupported(f"del on {dty} by {kty}")
                 self.flush(ind, pre)
-                for ln_ in self.assign_to(tg.value, f"(← NDict.delItem {dt} {k})"):
+                for ln_ in self.assign_to(tg.value, self.M(f"NDict.delItem {dt} {k}")):
                     self.emit(ind, ln_)
+            return
+        if self.extm and isinstance(s, ast.Expr) and isinstance(s.value, ast.Call) and isinstance(s.value.func, ast.Attribute) and dotted(s.value.func) not in self.ms.methods and dotted(s.value.func) not in self.ms.opaque and dotted(s.value.func) not in self.ms.extern and self.value_method(s.value, ind):
             return
         if isinstance(s, ast.Expr) and isinstance(s.value, ast.Call) and isinstance(s.value.func, ast.Attribute) and s.value.func.attr in ("append", "add") and len(s.value.args) == 1 and not s.value.keywords and dotted(s.value.func) not in self.ms.methods and dotted(s.value.func) not in self.ms.opaque:
             c = s.value
@@ -1466,6 +2203,11 @@ class FnTranslator:
             n = s.targets[0].id
             ty = self.spec.local_types.get(n)
             arg = ast.unparse(s.value.args[0]) if len(s.value.args) == 1 else "?"
+            if ty is not None and split_ty(ty)[0] == "kddict" and arg == "set" and split_ty(split_ty(ty)[1][1])[0] == "eset" and n not in self.declared:
+                self.env[n] = ty
+                self.declared.add(n)
+                self.emit(ind, f"let mut {lname(n)} : {LEAN_TY[ty]} := []")
+                return
             if ty is None or split_ty(ty)[0] != "ddict" or {"int": "nat", "list": "natlist", "set": "set"}.get(arg) != split_ty(ty)[1][1] or n in self.declared:
                 raise Unsupported(f"{ast.unparse(s)[:80]} (no matching local_types entry)")
             self.env[n] = ty
@@ -1478,6 +2220,8 @@ class FnTranslator:
             if d in self.ms.ignore_calls:
                 self.emit(ind, f"pure ()  -- {ast.unparse(c)[:60]}")
                 return
+            if isinstance(c.func, ast.Attribute) and d not in self.ms.opaque and d not in self.ms.methods and d not in self.ms.extern and self.value_method(c, ind):
+                return
             if isinstance(c.func, ast.Attribute) and c.func.attr in SET_MUTATORS and d not in self.ms.opaque:
                 m = c.func.attr
                 if m == "clear":
@@ -1487,7 +2231,7 @@ class FnTranslator:
                 self.flush(ind, pre)
                 if m == "update" and aty == "set":
                     self.set_mut(c.func.value, lambda cur: f"PSet.update {cur} {a}", ind)
-                elif m == "add" and aty in ("nat", "uuid"):
+                elif m == "add" and (aty in ("nat", "uuid") or aty in self.ms.eq_types and aty in NAT_TYPES(self)):
                     self.set_mut(c.func.value, lambda cur: f"PSet.add {cur} {a}", ind)
                 elif m == "difference_update" and aty == "set":
                     self.set_mut(c.func.value, lambda cur: f"PSet.differenceUpdate {cur} {a}", ind)
@@ -1539,6 +2283,16 @@ class FnTranslator:
                 return
             sf = self.sfield(dd)
             fh, fa = split_ty(sf[1]) if sf else ("", [])
+            kty0 = self.static_type(tg.value)
+            if kty0 is not None and self.key_dict(kty0) is not None:
+                kk, kv = self.key_dict(kty0)  # type: ignore[misc]
+                cv = self.coerce(v, vty, kv)
+                if not self.elem_eq(kty, kk) or cv is None:
+                    raise Unsupported(f"item assignment {ast.unparse(s)[:80]}: {kty} -> {vty} into {kty0}")
+                cur, _ = self.expr(tg.value, pre)
+                for ln_ in self.assign_to(tg.value, f"KDict.set {cur} {k} {cv}"):
+                    self.emit(ind, ln_)
+                return
             if sf and fh in ("dict", "ddict") and fa and (kty == fa[0] or {kty, fa[0]} == {"nat", "uuid"}) and self.coerce(v, vty, fa[1]) is not None:
                 setter = "ADict.set" if split_ty(fa[0])[0] == "tuple" else "NDict.set"
                 self.emit(ind, self.sfield_set(dd, f"{setter} {sf[0]} {k} {self.coerce(v, vty, fa[1])}"))  # type: ignore[arg-type]
@@ -1558,9 +2312,12 @@ class FnTranslator:
             dd = dotted(tg)
             if not (dd and dd.startswith("self.") and dd[5:] in self.ms.self_fields) or s.value is None:
                 raise Unsupported(f"attribute assignment {ast.unparse(s)[:80]}")
-            v, vty = self.expr(s.value, pre)
-            self.flush(ind, pre)
             fty = self.ms.self_fields[dd[5:]]
+            if self.extm and isinstance(s.value, ast.Call) and dotted(s.value.func) == "defaultdict" and [ast.unparse(a) for a in s.value.args] == ["set"] and split_ty(fty)[0] == "kddict" and (split_ty(fty)[1][1] == "sref" or (self.ms.ext and split_ty(fty)[1][1] == "set")):
+                v, vty = "[]", fty  # `defaultdict(set)`: no keys yet
+            else:
+                v, vty = self.expr_for(s.value, pre, fty if self.ms.local_decl else None)
+            self.flush(ind, pre)
             cv = self.coerce(v, vty, fty)
             if cv is None:
                 raise Unsupported(f"{dd} (a {fty}) assigned a {vty}")
@@ -1598,7 +2355,7 @@ class FnTranslator:
             if len(s.targets) != 1 or not isinstance(s.targets[0], ast.Name):
                 raise Unsupported(f"assignment target {ast.unparse(s)}")
             n = s.targets[0].id
-            if n in self.rename or any(n in (dotted(a), dotted(b)) for a, b in self.alias.values()):
+            if (n in self.rename and n not in self.narrow_mut) or any(n in (dotted(a), dotted(b)) for a, b in self.alias.values()):
                 raise Unsupported(f"assignment to {n} while it is narrowed / used by a live alias")
             if self.try_flag is not None and n in self.declared and isinstance(s.value, ast.Call) and (dotted(s.value.func) in self.ms.methods or self.callee_of(dotted(s.value.func)) is not None):
                 # inside try/except Exception: the value exists only when the call did not raise
@@ -1608,16 +2365,30 @@ class FnTranslator:
                     raise Unsupported(f"{n} = {ast.unparse(s.value)[:60]} inside try/except")
                 self.flush(ind, pre)
                 return
-            t, ty = self.expr(s.value, pre)
+            t, ty = self.expr_for(s.value, pre, self.env.get(n) if n in self.declared else self.spec.local_types.get(n) if self.ms.local_decl else None)
             self.flush(ind, pre)
             self.alias.pop(n, None)
+            self.fresh_objs.discard(n)
+            if isinstance(s.value, (ast.Set, ast.Dict, ast.List)) or (isinstance(s.value, ast.Call) and dotted(s.value.func) in ("set", "dict", "list", "OrderedDict") and not s.value.args):
+                self.fresh_objs.add(n)  # a fresh container: mutating it cannot be seen by anybody else
             if isinstance(s.value, ast.Subscript) and self.is_objty(ty) and isinstance(s.value.slice, ast.Name):
                 self.alias[n] = (s.value.value, s.value.slice)  # `n` IS the object stored in the dict
             if n in self.declared:
                 if self.env[n] != ty:
-                    raise Unsupported(f"{n} changes type {self.env[n]} -> {ty}")
-                self.emit(ind, f"{lname(n)} := {t}")
+                    c = self.coerce(t, ty, self.env[n]) if self.ms.local_decl else None
+                    if c is None:
+                        raise Unsupported(f"{n} changes type {self.env[n]} -> {ty}")
+                    t = c
+                self.emit(ind, f"{self.ln(n) if n in self.narrow_mut else lname(n)} := {t}")
+                if n in self.narrow_mut:
+                    self.emit(ind, f"{lname(n)} := some {self.ln(n)}")  # the Optional variable behind the narrowed one
             else:
+                want = self.spec.local_types.get(n) if self.ms.local_decl else None
+                if want is not None and want != ty:
+                    c = self.coerce(t, ty, want)
+                    if c is None:
+                        raise Unsupported(f"{n} is declared {want} and assigned a {ty}")
+                    t, ty = c, want
                 self.env[n] = ty
                 self.declared.add(n)
                 self.emit(ind, f"let mut {lname(n)} : {LEAN_TY[ty]} := {t}")
@@ -1644,7 +2415,22 @@ class FnTranslator:
 
             self.narrowed(n, inner, body)
             return
+        nt2 = self.narrow_test(s.test) if isinstance(s, ast.If) and s.orelse and self.ms.local_decl else None
+        if nt2 is not None and nt2[1] in ("none", "some"):
+            # `if x is None: A else: B` - B sees `x` narrowed (as a mutable local; see `narrowed_mut`)
+            assert isinstance(s, ast.If)
+            n, kind, inner = nt2
+            self.hoist_branch_locals(s, ind)
+            b = self.fresh(n)
+            none_arm, some_arm = (s.body, s.orelse) if kind == "none" else (s.orelse, s.body)
+            self.emit(ind, f"match {self.ln(n)} with")
+            self.emit(ind, "| none =>")
+            self.block(none_arm, ind + 1)
+            self.emit(ind, f"| some {b} =>")
+            self.narrowed_mut(n, inner, b, ind + 1, lambda: self.block(some_arm, ind + 1))
+            return
         if isinstance(s, ast.If):
+            self.hoist_branch_locals(s, ind)
             t, ty = self.expr(s.test, pre)
             self.flush(ind, pre)
             self.emit(ind, f"if {self.truthy(t, ty)} then")
@@ -1653,12 +2439,17 @@ class FnTranslator:
                 self.emit(ind, "else")
                 self.block(s.orelse, ind + 1)
             return
+        if isinstance(s, ast.For) and self.extm:
+            self.stmt_for_general(s, ind)
+            return
         if isinstance(s, ast.For) and not s.orelse and isinstance(s.target, ast.Tuple):
             # `for k, v in d.items():` over an insertion-ordered dict
             it, ity = self.expr(s.iter, pre)
             self.flush(ind, pre)
             ih, ia = split_ty(ity)
             names = [x.id if isinstance(x, ast.Name) else None for x in s.target.elts]
+            if ity == "items":
+                ih, ia = "items", ["str", "pyval"]  # the items of an `Options` dict
             if ih != "items" or len(ia) != 2 or len(names) != 2 or None in names or names[0] == names[1]:
                 raise Unsupported(f"for {ast.unparse(s.target)} over {ity}")
             for n, ty in zip(names, ia):
@@ -1682,7 +2473,7 @@ class FnTranslator:
                 # the `for` statement's next step notices that the dict it iterates has grown
                 cur, _ = self.expr(s.iter.func.value if isinstance(s.iter, ast.Call) else s.iter, pre)  # type: ignore[attr-defined]
                 self.emit(ind + 1, f"if ({cur}).length != {n0} then")
-                self.emit(ind + 2, 'throw (.runtimeError "dictionary changed size during iteration")')
+                self.emit(ind + 2, self.throw('(.runtimeError "dictionary changed size during iteration")'))
             return
         if isinstance(s, ast.For):
             if s.orelse or not isinstance(s.target, ast.Name):
@@ -1690,7 +2481,7 @@ class FnTranslator:
             it, ity = self.expr(s.iter, pre)
             self.flush(ind, pre)
             if ity not in ("set", "natlist"):
-                if not self.ms.obj_fields and not self.ms.methods:
+                if not self.ms.obj_fields and not self.ms.methods and not self.ms.exc_state and not self.extm:
                     raise Unsupported(f"for over {ity}")
                 it, ety = self.iter_of(it, ity)
             else:
@@ -1731,7 +2522,7 @@ class FnTranslator:
             t, ty = self.expr(s.test, pre)
             self.flush(ind + 1, pre)
             self.emit(ind + 1, f"if {self.truthy(t, ty)} then")
-            self.emit(ind + 2, "throw .fuel")
+            self.emit(ind + 2, self.throw(".fuel"))
             return
         if isinstance(s, ast.Return):
             if self.is_gen:
@@ -1780,16 +2571,16 @@ class FnTranslator:
             if isinstance(s.exc, ast.Call) and dotted(s.exc.func) in ("Exception", "ValueError") and len(s.exc.args) == 1 and isinstance(s.exc.args[0], ast.Constant):
                 ctor = ".exception" if dotted(s.exc.func) == "Exception" else ".valueError"
                 msg = str(s.exc.args[0].value).replace('"', "'")
-                self.emit(ind, f'throw ({ctor} "{msg}")')
+                self.emit(ind, self.throw(f'({ctor} "{msg}")'))
                 return
             if isinstance(s.exc, ast.Call) and dotted(s.exc.func) in ("Exception", "ValueError") and len(s.exc.args) == 1 and isinstance(s.exc.args[0], ast.JoinedStr):
                 self.expr(s.exc.args[0], pre)  # checks the interpolated expressions
                 self.flush(ind, pre)
                 ctor = ".exception" if dotted(s.exc.func) == "Exception" else ".valueError"
-                self.emit(ind, f'throw ({ctor} "{self.fstring_text(s.exc.args[0])}")')
+                self.emit(ind, self.throw(f'({ctor} "{self.fstring_text(s.exc.args[0])}")'))
                 return
             if isinstance(s.exc, ast.Call) and dotted(s.exc.func) == "Exception" and all(isinstance(a, ast.Name) and self.env.get(a.id) == "str" for a in s.exc.args):
-                self.emit(ind, f'throw (.exception "{ast.unparse(s.exc)}")')
+                self.emit(ind, self.throw(f'(.exception "{ast.unparse(s.exc)}")'))
                 return
             raise Unsupported(f"raise {ast.unparse(s)}")
         if isinstance(s, ast.Try) and self.typed_try(s) is not None:
@@ -1827,7 +2618,7 @@ class FnTranslator:
         params = []
         if self.spec.self_type:
             params.append(f"(self : {self.spec.self_type})")
-        for n, ty in list(self.spec.params.items()) + list(self.spec.live_in.items()):
+        for n, ty in list(self.spec.params.items()) + list(self.spec.live_in.items()) + list(self.spec.closure.items()):
             params.append(f"({lname(n)} : {LEAN_TY[ty]})")
         for av in self.attr_params:
             params.append(f"({lname(av)} : {LEAN_TY[self.env[av]]})")
@@ -1863,7 +2654,7 @@ class FnTranslator:
         if self.spec.recursive:
             # RECURSION: `fuel` is the number of Python frames still available; a call at fuel 0 is a RecursionError
             self.emit(1, "match fuel with")
-            self.emit(1, "| 0 => throw .recursion")
+            self.emit(1, "| 0 => " + self.throw(".recursion"))
             self.emit(1, "| fuel' + 1 =>")
         bi = 2 if self.spec.recursive else 1
         if self.ms.narrow or self.ms.exc_types:
@@ -1889,7 +2680,8 @@ class FnTranslator:
                 raise Unsupported(f"{self.spec.py_name} can fall off its end but declares a {self.spec.ret} result")
             self.emit(bi, f"return {self.ret_tuple('yielded' if self.is_gen else '()')}")
         doc = f"/-- `{self.spec.py_name}`" + (f": {self.spec.doc}" if self.spec.doc else "") + " -/\n"
-        head = f"def {self.lean_name()} {' '.join(params)} : Except PyExc ({self.ret_type()}) := do\n"
+        exc_ty = f"(PyExc × {self.st_type()})" if self.st_mode else "PyExc"
+        head = f"def {self.lean_name()} {' '.join(params)} : Except {exc_ty} ({self.ret_type()}) := do\n"
         return doc + head + "\n".join(self.lines) + "\n"
 
 
@@ -1900,7 +2692,13 @@ class ModuleTranslator:
         self.tree = ast.parse(self.src)
         self.translated: Dict[str, FnTranslator] = {}
 
-    def find(self, name: str) -> ast.FunctionDef:
+    def find(self, name: str, nested_in: Optional[str] = None) -> ast.FunctionDef:
+        if nested_in is not None:
+            outer = self.find(nested_in)
+            inner = [n for n in ast.walk(outer) if isinstance(n, ast.FunctionDef) and n.name == name and n is not outer]
+            if len(inner) != 1:
+                raise Unsupported(f"nested function {name} not found (or not unique) in {nested_in}")
+            return inner[0]
         scope: List[ast.stmt] = self.tree.body
         if self.spec.cls:
             cl = [n for n in self.tree.body if isinstance(n, ast.ClassDef) and n.name == self.spec.cls]
@@ -1919,7 +2717,7 @@ class ModuleTranslator:
             out.append(self.spec.prelude)
         for fs in self.spec.functions:
             try:
-                fdef = self.find(fs.py_name)
+                fdef = self.find(fs.py_name, fs.nested_in)
                 # parameters of the Python function must be the ones the spec lists (a changed signature is a changed function)
                 if not fs.slicer:
                     got = [a.arg for a in fdef.args.args if a.arg not in ("self", "cls")]
@@ -1927,6 +2725,12 @@ class ModuleTranslator:
                     if extra or [p for p in fs.params if p not in got]:
                         raise Unsupported(f"signature of {fs.py_name} is {got}, spec lists {list(fs.params)}")
                 ft = FnTranslator(self, fs, fdef)
+                if self.spec.set_refs:
+                    # first pass: does the function (or a callee) read / write the heap of set objects?
+                    ft0 = FnTranslator(self, fs, fdef)
+                    ft0.force_heap = (True, True)
+                    ft0.translate()
+                    ft.force_heap = (ft0.heap_read, ft0.heap_written)
                 text = ft.translate()
                 self.translated[fs.lean_name or fs.py_name] = ft
                 if fs.py_name not in self.translated:
